@@ -186,6 +186,8 @@ impl Searcher {
                 game_state: State,
                 best_move: Option<Move>,
                 search_depth: usize,
+                #[cfg(weechess_verif)]
+                verif_index: usize,
             }
 
             // This is a variation of lazy SMP. We rely on the non-determanistic
@@ -206,13 +208,21 @@ impl Searcher {
                     } else {
                         None
                     },
+                    #[cfg(weechess_verif)]
+                    verif_index: i,
                 })
                 .collect();
+
+            #[cfg(weechess_verif)]
+            verif::iteration_begin(thread_count);
 
             let results: Result<Vec<_>, SearchInterrupt> = {
                 thread_data
                     .into_par_iter()
                     .map(|data| {
+                        #[cfg(weechess_verif)]
+                        let _verif_worker = verif::WorkerGuard::enter(data.verif_index);
+
                         let game_state = data.game_state;
                         let best_move = data.best_move;
                         let search_depth = data.search_depth;
@@ -691,11 +701,17 @@ impl TranspositionTableAccess {
     }
 
     fn insert(&self, hash: Hash, entry: TranspositionEntry) {
+        #[cfg(weechess_verif)]
+        verif::yield_point();
+
         let index = hash as usize % self.tables.len();
         self.tables[index].write().unwrap().insert(hash, entry);
     }
 
     fn find(&self, hash: Hash) -> Option<TranspositionEntry> {
+        #[cfg(weechess_verif)]
+        verif::yield_point();
+
         let index = hash as usize % self.tables.len();
         self.tables[index].read().unwrap().find(hash).copied()
     }
@@ -976,6 +992,118 @@ pub mod verif {
 
     pub fn nodes_entered() -> usize {
         NODE_COUNT.load(Ordering::SeqCst)
+    }
+
+    // ---- forced schedules: the workers of an iteration take turns at their table operations ----
+    //
+    // With a schedule installed, every worker of the current iteration stops in front of each
+    // `TranspositionTableAccess::find` / `insert` (yield_point). When all unfinished workers are
+    // stopped, the next schedule entry c picks the (c mod m)-th of the m unfinished workers in index
+    // order (entry 0 when the schedule is used up); that worker performs its operation and runs to its
+    // next yield point or to its end. Threads that are not workers (the caller reading the line) and
+    // runs without a schedule pass through untouched.
+
+    struct Sched {
+        schedule: Vec<u64>,
+        pos: usize,
+        waiting: Vec<bool>,
+        finished: Vec<bool>,
+        granted: Option<usize>,
+        served: usize,
+    }
+
+    static SCHED: std::sync::Mutex<Option<Sched>> = std::sync::Mutex::new(None);
+    static SCHED_CV: std::sync::Condvar = std::sync::Condvar::new();
+
+    thread_local! {
+        static WORKER: std::cell::Cell<Option<usize>> = std::cell::Cell::new(None);
+    }
+
+    /// Install (Some) or remove (None) a schedule for the following calls of `analyze_sync`.
+    pub fn set_schedule(schedule: Option<Vec<u64>>) {
+        *SCHED.lock().unwrap() = schedule.map(|schedule| Sched {
+            schedule,
+            pos: 0,
+            waiting: Vec::new(),
+            finished: Vec::new(),
+            granted: None,
+            served: 0,
+        });
+    }
+
+    /// (schedule entries consumed, table operations served under the schedule)
+    pub fn schedule_progress() -> (usize, usize) {
+        SCHED.lock().unwrap().as_ref().map(|s| (s.pos, s.served)).unwrap_or((0, 0))
+    }
+
+    pub(super) fn iteration_begin(workers: usize) {
+        if let Some(s) = SCHED.lock().unwrap().as_mut() {
+            s.waiting = vec![false; workers];
+            s.finished = vec![false; workers];
+            s.granted = None;
+        }
+    }
+
+    // with every unfinished worker stopped and nobody granted: let the schedule pick the next one
+    fn decide(s: &mut Sched) {
+        if s.granted.is_some() {
+            return;
+        }
+        let unfinished: Vec<usize> = (0..s.finished.len()).filter(|i| !s.finished[*i]).collect();
+        if unfinished.is_empty() || unfinished.iter().any(|i| !s.waiting[*i]) {
+            return;
+        }
+        let c = if s.pos < s.schedule.len() {
+            s.pos += 1;
+            s.schedule[s.pos - 1]
+        } else {
+            0
+        };
+        s.granted = Some(unfinished[(c % unfinished.len() as u64) as usize]);
+        s.served += 1;
+    }
+
+    pub(super) fn yield_point() {
+        let Some(me) = WORKER.with(|w| w.get()) else {
+            return;
+        };
+        let mut guard = SCHED.lock().unwrap();
+        match guard.as_mut() {
+            Some(s) if me < s.waiting.len() => s.waiting[me] = true,
+            _ => return,
+        }
+        loop {
+            let s = guard.as_mut().unwrap();
+            decide(s);
+            if s.granted == Some(me) {
+                s.granted = None;
+                s.waiting[me] = false;
+                return;
+            }
+            SCHED_CV.notify_all();
+            guard = SCHED_CV.wait(guard).unwrap();
+        }
+    }
+
+    pub(super) struct WorkerGuard(usize);
+
+    impl WorkerGuard {
+        pub(super) fn enter(index: usize) -> Self {
+            WORKER.with(|w| w.set(Some(index)));
+            Self(index)
+        }
+    }
+
+    impl Drop for WorkerGuard {
+        fn drop(&mut self) {
+            WORKER.with(|w| w.set(None));
+            if let Some(s) = SCHED.lock().unwrap().as_mut() {
+                if self.0 < s.finished.len() {
+                    s.finished[self.0] = true;
+                }
+            }
+            SCHED_CV.notify_all();
+        }
     }
 
     fn move_from_raw(raw: u32) -> Move {
